@@ -169,8 +169,22 @@ func (g *txgen) entityAddr(i int) staking.Address {
 func (g *txgen) gen(from int, nonce uint64, res *hlib.Result) []byte {
 	r := g.r
 	var fee *transaction.Fee
-	if r.Chance(2, 3) && !g.w.tie { // fees are partly credited to escrow and would break the engineered tie
-		fee = &transaction.Fee{Amount: q(uint64(r.Intn(50))), Gas: transaction.Gas(2000 + r.Intn(3000))}
+	if !g.w.tie { // fees are partly credited to escrow and would break the engineered tie
+		gas := uint64(2000 + r.Intn(3000))
+		min := g.w.minGas
+		switch k := r.Intn(10); {
+		case k == 0:
+			res.Count("fee:nil")
+		case k == 1:
+			fee = &transaction.Fee{Amount: q(gas*min - 1), Gas: transaction.Gas(gas)}
+			res.Count("fee:below-consensus-minimum")
+		case k < 5:
+			fee = &transaction.Fee{Amount: q(gas * min), Gas: transaction.Gas(gas)}
+			res.Count("fee:at-consensus-minimum")
+		default:
+			fee = &transaction.Fee{Amount: q(gas*min*uint64(2+r.Intn(3)) + uint64(r.Intn(50))), Gas: transaction.Gas(gas)}
+			res.Count("fee:above-minimum")
+		}
 	}
 	amt := func() quantity.Quantity {
 		switch r.Intn(6) {
@@ -212,7 +226,7 @@ func (g *txgen) gen(from int, nonce uint64, res *hlib.Result) []byte {
 		tx = staking.NewWithdrawTx(nonce, fee, &staking.Withdraw{From: g.addrOf(r.Intn(numAccounts)), Amount: amt()})
 		res.Count("tx:withdraw")
 	}
-	sig, err := transaction.Sign(g.w.accts[from], tx)
+	sig, err := transaction.Sign(g.w.signers[from], tx)
 	if err != nil {
 		panic(err)
 	}
@@ -229,6 +243,11 @@ func (g *txgen) mempool(n int, res *hlib.Result) [][]byte {
 	}
 	for i := 0; i < n; i++ {
 		from := g.r.Intn(numAccounts)
+		if g.r.Chance(1, 4) {
+			// signed by a validator node's own key: that node's OwnTxSigner
+			from = numAccounts + g.r.Intn(numValidators)
+			res.Count("tx:signed-by-a-node-own-key")
+		}
 		switch g.r.Intn(12) {
 		case 0:
 			b := make([]byte, 5+g.r.Intn(40))
@@ -262,8 +281,8 @@ func (g *txgen) refreshNonces(o *replica) {
 	}
 	defer tree.Close()
 	ss := stakingState.NewImmutableState(tree)
-	for i := range g.w.accts {
-		if a, err := ss.Account(ctx, g.addrOf(i)); err == nil {
+	for i := range g.w.signers {
+		if a, err := ss.Account(ctx, staking.NewAddress(g.w.signers[i].Public())); err == nil {
 			g.nonces[i] = a.General.Nonce
 		}
 	}
@@ -435,6 +454,21 @@ func (s *session) exec(d *driver, o op, height int64) {
 		p := guard(func() { resp = r.mux.DeliverTx(types.RequestDeliverTx{Tx: o.tx}) })
 		ans, od := digDeliver(resp)
 		s.ordered[height] = append(s.ordered[height], od)
+		if r.self == 0 && p == "" {
+			if resp.Code == 0 {
+				d.res.Count("decided-tx:ok")
+			} else {
+				k := fmt.Sprintf("decided-tx:error:%s/%d", resp.Codespace, resp.Code)
+				if resp.Codespace == "unknown" {
+					l := resp.Log
+					if i := strings.IndexAny(l, " :("); i > 0 {
+						l = l[:i]
+					}
+					k += ":" + strings.ReplaceAll(l, " ", "_")
+				}
+				d.res.Count(k)
+			}
+		}
 		if p != "" {
 			ans = "PANIC"
 			s.panics = append(s.panics, o.kind+": "+p)
@@ -578,7 +612,7 @@ func (d *driver) runHistory(seed uint64, heights int, rep int) *histOut {
 
 	noPrune := abci.PruneConfig{Strategy: abci.PruneNone, PruneInterval: time.Second}
 	keepN := abci.PruneConfig{Strategy: abci.PruneKeepN, NumKept: 3, PruneInterval: 20 * time.Millisecond}
-	oracle, err := w.openReplica("O", 1, subdir(dir, "O"), noPrune)
+	oracle, err := w.openReplica("O", 0, subdir(dir, "O"), noPrune)
 	if err != nil {
 		d.fail(out, "harness", "harness-open", err.Error(), nil)
 		return out
@@ -893,7 +927,7 @@ func (d *driver) runHistory(seed uint64, heights int, rep int) *histOut {
 
 		// ---- spec on the implementation for this height
 		hcase := func() []string {
-			return []string{fmt.Sprintf("history seed=%d height=%d (replay with -replay-seed)", seed, h)}
+			return []string{fmt.Sprintf("history seed=%d heights=%d backend=%s%s", seed, h, w.backend, w.tieSuffix())}
 		}
 		for _, c := range append(append([]*cand{}, cands...), gap) {
 			if c == nil {
@@ -967,10 +1001,19 @@ func (d *driver) runHistory(seed uint64, heights int, rep int) *histOut {
 				continue
 			}
 			if !equalStrs(s.results[h], orc.results[h]) {
-				d.fail(out, "spec", "results-differ", fmt.Sprintf("height %d: replica %s returned %v for the decided block, plain replay %v", h, s.r.name, s.results[h], orc.results[h]), hcase())
+				sig := "twin-block-result-differs"
+				for i := range s.results[h] {
+					if i < len(orc.results[h]) && s.results[h][i] != orc.results[h][i] {
+						if i > 0 && i < len(s.results[h])-1 {
+							sig = "twin-deliver-result-differs"
+						}
+						break
+					}
+				}
+				d.fail(out, "spec", sig, fmt.Sprintf("height %d: replica %s returned %v for the decided block, plain replay %v", h, s.r.name, s.results[h], orc.results[h]), hcase())
 			}
 			if s.appHash[h] != orc.appHash[h] {
-				d.fail(out, "spec", "apphash-differs", fmt.Sprintf("height %d: replica %s AppHash %s, plain replay %s", h, s.r.name, s.appHash[h], orc.appHash[h]), hcase())
+				d.fail(out, "spec", "twin-apphash-differs", fmt.Sprintf("height %d: replica %s AppHash %s, plain replay %s", h, s.r.name, s.appHash[h], orc.appHash[h]), hcase())
 			}
 			if equalStrs(s.ordered[h], orc.ordered[h]) {
 				res.Count("info:emission-order-same")
@@ -1118,6 +1161,9 @@ func main() {
 			var h int
 			var b string
 			fmt.Sscanf(lines[0], "history seed=%d heights=%d backend=%s", &s, &h, &b)
+			if strings.Contains(lines[0], " tie") {
+				*tie = true
+			}
 			*replaySeed = s
 			if h > 0 {
 				*heights = h
@@ -1186,7 +1232,7 @@ func main() {
 			} else if !equalStrs(first, ho.appHashes) {
 				res.Fail(hlib.Failure{Kind: "spec", Sig: "apphash-chain-differs-between-runs", Seed: cs,
 					Detail: fmt.Sprintf("the same history gave AppHash chain %v on the first run and %v on run %d", first, ho.appHashes, rep),
-					Case:   []string{fmt.Sprintf("history seed=%d heights=%d backend=%s", cs, *heights, b)}})
+					Case:   []string{fmt.Sprintf("history seed=%d heights=%d backend=%s%s", cs, *heights, b, worlds[b].tieSuffix())}})
 			}
 			if len(ho.failures) > 0 {
 				break
